@@ -161,6 +161,74 @@ PROPS = {
         "level_text": "Exhaustive over aspect classes in singles and pairs, random beyond; soundness and completeness of the report judged against an independent rule list.",
         "level_note": "Trusts the rule list c12Expected (written from the statement) and the ndp codec.",
     },
+    "C05": {
+        "pkg": "internal/corerad",
+        "files": ["corerad/zz_verif_C12_test.go", "corerad/zz_verif_sim_test.go", "corerad/zz_verif_C05_test.go"],
+        "run": "TestVerif_C05",
+        "level": "exploration",
+        "bubble": True,
+        "quick": {"shards": 8},
+        "thorough": {"shards": 16},
+        "rule": ("function level: every accepted (min,max) pair at one-second granularity (max 4..1800 s, min 3 s..0.75*max, min=max for max<9 s, "
+                 "and the automatic 2 s minimum for max in [9,10) s) x advertisement index {0,1,2,3,4,10,1000} x forced random draws {0,1,range/2,"
+                 "range-2,range-1, three seeded} through a scripted rand.Source handed to the real multicastDelay (thorough: the full grid, "
+                 "exhaustive; quick: every boundary pair plus a stride-37 sample), plus rapid-generated fractional pairs; loop level: the real "
+                 "multicast loop in a synctest bubble for 3..200 waits with a time-stamping consumer, PRNG seed varied by pre-advancing the fake "
+                 "clock, cancelled at a generated instant. Oracle: wait > 0; index>=3: floor_s(min) <= wait <= ceil_s(max); index<3: wait <= 16 s and "
+                 "(wait >= floor_s(min) or wait = 16 s); requests never stop before cancellation, none after, loop exits. Non-trivial: the initial "
+                 "clamp is active, the draw is at an extreme, or a bound is fractional. Grid cases are distinct by construction (enumeration index); "
+                 "random cases by FNV-64 of the canonical JSON case."),
+        "assumptions": [STAGED, BUBBLE, "'recur forever' is checked as a bounded statement: the next request always arrives within max+2 s for up to 200 waits"],
+        "technique": "bounded-exhaustive enumeration with a scripted random source + rapid property-based testing; real loop on virtual time (testing/synctest)",
+        "level_text": "Exhaustive at one-second granularity over every accepted interval pair with forced extreme draws (thorough), sampled with all boundary pairs (quick); fractional pairs and the running loop sampled.",
+        "level_note": "Trusts math/rand's reduction of a raw draw into [0,n) and testing/synctest's fake clock.",
+    },
+    "C06": {
+        "pkg": "internal/corerad",
+        "files": ["corerad/zz_verif_C12_test.go", "corerad/zz_verif_sim_test.go", "corerad/zz_verif_adv_test.go", "corerad/zz_verif_C06_test.go"],
+        "run": "TestVerif_C06",
+        "level": "exploration",
+        "bubble": True,
+        "quick": {"shards": 8},
+        "thorough": {"shards": 16},
+        "rule": ("histories of multicast triggers on a real Advertiser.Run in a synctest bubble (real 3 s constant): every history of <=3 (quick) / "
+                 "<=4 (thorough) events with inter-arrival gaps from {0, 1 ns, 1.5 s, 3 s-1 ns, 3 s, 3 s+1 ns, 6 s} x {RS from ::, RS from a "
+                 "unicast source, link event (re-initialisation)} x max_interval in {4 s, 7 s} (min=max, so periodic tick times are known exactly); "
+                 "rapid-generated histories of up to 30 events with bursts of 1..40 solicitations inside a millisecond, random intervals, stop at a "
+                 "generated instant. Oracle over the WriteTo log: consecutive writes to ff02::1 on one connection before the stop are >= 3 s apart; "
+                 "every trigger (RS from :: at delivery, periodic tick at its known time) is followed by a multicast write within [t, t+3 s] unless a "
+                 "stop or re-initialisation intervenes. Non-trivial: two triggers < 3 s apart, a trigger within 3 s of the previous multicast write, "
+                 "or a fixed-interval configuration (ticks interact with the initial RA). Distinct: FNV-64 of the canonical JSON scenario."),
+        "assumptions": [STAGED, BUBBLE, FAKES, "goroutine order at one virtual instant is whatever the Go scheduler picks; the oracle holds for every order"],
+        "technique": "bounded-exhaustive enumeration of event histories on a time grid + rapid property-based testing; history invariants over exact virtual timestamps (testing/synctest)",
+        "level_text": "Exhaustive over short histories on a grid around the 3 s boundary, random long bursty histories; counterexample search, not proof.",
+        "level_note": "Trusts testing/synctest's fake clock and the in-memory Conn; timestamps are exact (zero processing time).",
+    },
+    "C07": {
+        "pkg": "internal/corerad",
+        "files": ["corerad/zz_verif_C12_test.go", "corerad/zz_verif_sim_test.go", "corerad/zz_verif_adv_test.go", "corerad/zz_verif_C06_test.go", "corerad/zz_verif_C07_test.go"],
+        "run": "TestVerif_C07",
+        "level": "exploration",
+        "bubble": True,
+        "patches": [{"name": "rand-source", "file": "internal/corerad/advertise.go", "pattern": r"rand\.NewSource\(", "repl": "vkNewSource(", "count": 2}],
+        "quick": {"shards": 8},
+        "thorough": {"shards": 16},
+        "rule": ("histories of up to 40 events on a real Advertiser.Run in a synctest bubble: solicitations from 6 link-local/global/ULA sources "
+                 "(distinct and repeated, with and without SLLA option, bursts of up to 40 at one instant, gaps at 500 ms-1 ns/500 ms/500 ms+1 ns), "
+                 "solicitations from ::, foreign RAs, link events, periodic RAs, unicast_only on/off, scripted transmit failures and latencies, stop at "
+                 "a generated instant; one case in four forces the random delay draw to 0, 1, 250 ms, 499999998 or 499999999 ns through a scripted "
+                 "rand.Source (staged call-site rename). Oracle: per (connection, source) a greedy earliest-first matching of solicitations to unicast "
+                 "writes with delay in [0,500 ms) must be a bijection (no unanswered solicitation unless a stop/re-initialisation intervenes, no "
+                 "spurious or double answer), content equals the configured RA, RS from :: => multicast within 3 s, unicast_only => no multicast "
+                 "destination ever, sent/received/transmit-error counters and the last-multicast gauge recomputed from the write and read logs, and "
+                 "over the whole run the observed delays are not all equal. Non-trivial: overlapping pending solicitations, a repeated source, a :: "
+                 "source or unicast_only. Distinct: FNV-64 of the canonical JSON case."),
+        "assumptions": [STAGED, BUBBLE, FAKES, "goroutine order at one virtual instant is sampled by the Go scheduler, not enumerated",
+                        "messages_received_total for types other than RS/RA is not judged"],
+        "technique": "rapid property-based testing of solicitation histories on virtual time (testing/synctest); bijection/matching oracle and counter model over exact timestamps; scripted random source for extreme draws",
+        "level_text": "Random histories with exact virtual timestamps; counterexample search, not proof.",
+        "level_note": "Trusts testing/synctest, the in-memory Conn and the greedy matching (optimal for equal-length windows).",
+    },
 }
 
 NOT_APPLICABLE = {}
